@@ -366,7 +366,7 @@ def _check(prop, tier, seed, nshards, binpath, outdir, evpath, t0):
                 log("note: known finding %s no longer reproduces from %s" % (k["id"], rp))
 
     # ---- main run: shards --------------------------------------------
-    timeout = 3 * 3600 if tier == "thorough" else 1500
+    timeout = 3 * 3600 if tier == "thorough" else 3000
     shards = [run_shard(binpath, prop, tier, seed, i, nshards, outdir, timeout) for i in range(nshards)]
     status = wait_all(shards)
     outs = []
